@@ -108,6 +108,36 @@ Proof.
   rewrite !nth_write_at_other by (rewrite ?enc32_length; lia). reflexivity.
 Qed.
 
+(* any write that does not touch the 4 bytes at q / a write that carries them *)
+Lemma field_at_write_outside f p bs q : (p + length bs <= length f)%nat -> (q + 4 <= p \/ p + length bs <= q)%nat ->
+  field_at (write_at f p bs) q = field_at f q.
+Proof.
+  intros Hl Hq. unfold field_at.
+  rewrite !nth_write_at_other by lia. reflexivity.
+Qed.
+
+Lemma nth_write_at_inside f p bs k : (p + length bs <= length f)%nat -> (k < length bs)%nat ->
+  nth (p + k) (write_at f p bs) 0 = nth k bs 0.
+Proof.
+  intros Hl Hk. rewrite nth_write_at by exact Hl.
+  replace ((p <=? p + k) && (p + k <? p + length bs))%nat with true
+    by (symmetry; apply andb_true_intro; split; [apply Nat.leb_le|apply Nat.ltb_lt]; lia).
+  f_equal. lia.
+Qed.
+
+Lemma field_at_write_inside f p bs q : (p + length bs <= length f)%nat -> (q + 4 <= length bs)%nat ->
+  field_at (write_at f p bs) (p + q) = field_at bs q.
+Proof.
+  intros Hl Hq. unfold field_at.
+  replace (p + q + 1)%nat with (p + (q + 1))%nat by lia.
+  replace (p + q + 2)%nat with (p + (q + 2))%nat by lia.
+  replace (p + q + 3)%nat with (p + (q + 3))%nat by lia.
+  rewrite !nth_write_at_inside by lia. reflexivity.
+Qed.
+
+Lemma wrap32_int32 x : int32 (wrap32 x).
+Proof. unfold int32, wrap32. cbv zeta. destruct (Z.ltb_spec (x mod 4294967296) 2147483648); lia. Qed.
+
 (* ------------------------------------------------------------------ positions of the Money fields *)
 Lemma money_pos_Z u : valid u -> Z.of_nat (money_pos u) = RECSZ * (u - 1) + MONEY_OFF.
 Proof. intros [H1 H2]. unfold money_pos. pose proof layout_ok. rewrite Z2Nat.id; nia. Qed.
@@ -131,6 +161,47 @@ Proof.
   - right. pose proof (recsz_mul u u' Hlt). lia.
   - left. pose proof (recsz_mul u' u Hgt). lia.
 Qed.
+
+(* ------------------------------------------------------------------ positions of the records and of the one-field updates *)
+Lemma layout_fields : forall k, 0 <= pf_off k /\ 0 <= pf_len k /\ pf_off k + pf_len k <= RECSZ /\
+  (pf_off k + pf_len k <= MONEY_OFF \/ MONEY_OFF + 4 <= pf_off k).
+Proof. intros [|]; vm_compute; (repeat split; try discriminate); (left; discriminate) || (right; discriminate). Qed.
+
+Lemma rec_pos_Z u : valid u -> Z.of_nat (rec_pos u) = RECSZ * (u - 1).
+Proof. intros [H1 H2]. unfold rec_pos. pose proof layout_ok. rewrite Z2Nat.id; nia. Qed.
+
+Lemma money_pos_rec u : valid u -> money_pos u = (rec_pos u + Z.to_nat MONEY_OFF)%nat.
+Proof.
+  intros H. apply Nat2Z.inj. rewrite Nat2Z.inj_add, money_pos_Z, rec_pos_Z by exact H.
+  pose proof layout_ok. rewrite Z2Nat.id by lia. reflexivity.
+Qed.
+
+Lemma rec_fits u (f : list Z) : valid u -> length f = Z.to_nat (MAXU * RECSZ) -> (rec_pos u + Z.to_nat RECSZ <= length f)%nat.
+Proof.
+  intros H Hl. pose proof (rec_pos_Z u H). destruct H as [H1 H2]. pose proof layout_ok.
+  rewrite Hl. apply Nat2Z.inj_le. rewrite Nat2Z.inj_add. rewrite !Z2Nat.id by nia. nia.
+Qed.
+
+(* the Money field of another user lies outside record u *)
+Lemma money_pos_outside_rec u u' : valid u -> valid u' -> u' <> u ->
+  (money_pos u' + 4 <= rec_pos u \/ rec_pos u + Z.to_nat RECSZ <= money_pos u')%nat.
+Proof.
+  intros H H' Hne. pose proof (rec_pos_Z u H). pose proof (money_pos_in_record u' H') as [Ha Hb]. pose proof layout_ok.
+  assert (Hr : Z.of_nat (Z.to_nat RECSZ) = RECSZ) by (apply Z2Nat.id; lia).
+  destruct (Z.lt_total u u') as [Hlt|[Heq|Hgt]]; [|congruence|].
+  - right. apply Nat2Z.inj_le. rewrite Nat2Z.inj_add. nia.
+  - left. apply Nat2Z.inj_le. rewrite Nat2Z.inj_add. change (Z.of_nat 4) with 4. nia.
+Qed.
+
+Lemma uid_is_valid_true u : valid u -> uid_is_valid u = true.
+Proof. intros [H1 H2]. unfold uid_is_valid. apply andb_true_intro. split; apply Z.leb_le; assumption. Qed.
+Lemma uid_is_valid_false u : ~ valid u -> uid_is_valid u = false.
+Proof.
+  unfold valid, uid_is_valid. intros H.
+  destruct (Z.leb_spec 1 u); destruct (Z.leb_spec u MAXU); cbn [andb]; try reflexivity; lia.
+Qed.
+Lemma valid_dec u : valid u \/ ~ valid u.
+Proof. unfold valid. lia. Qed.
 
 (* ------------------------------------------------------------------ the Go functions on a valid slot *)
 Lemma upd_same f k v : upd f k v k = v.
@@ -180,6 +251,105 @@ Proof.
       apply money_pos_apart; auto.
 Qed.
 
+(* a write that misses every Money field keeps the agreement *)
+Lemma write_outside_agree s b p (bs : list Z) : Agree s b -> (p + length bs <= length (file s))%nat ->
+  (forall u, valid u -> (money_pos u + 4 <= p \/ p + length bs <= money_pos u)%nat) ->
+  Agree (mkst (shm s) (write_at (file s) p bs)) b.
+Proof.
+  intros [Hl Ha] Hfit Hout. split; cbn [file shm].
+  - rewrite write_at_length by exact Hfit. exact Hl.
+  - intros u Hu. destruct (Ha u Hu) as [Hs Hf]. split; [exact Hs|].
+    rewrite money_field_at, field_at_write_outside; [rewrite <- money_field_at; exact Hf|exact Hfit|apply Hout; exact Hu].
+Qed.
+
+Lemma rec_with_money_length (rec : list Z) m : length rec = Z.to_nat RECSZ -> length (rec_with_money rec m) = Z.to_nat RECSZ.
+Proof.
+  intros H. unfold rec_with_money. rewrite write_at_length; [exact H|].
+  rewrite enc32_length, H. pose proof layout_ok. apply Nat2Z.inj_le. rewrite Nat2Z.inj_add, !Z2Nat.id by lia. change (Z.of_nat 4) with 4. lia.
+Qed.
+
+Lemma money_off_fits (rec : list Z) : length rec = Z.to_nat RECSZ -> (Z.to_nat MONEY_OFF + 4 <= length rec)%nat.
+Proof.
+  intros H. rewrite H. pose proof layout_ok. apply Nat2Z.inj_le. rewrite Nat2Z.inj_add, !Z2Nat.id by lia. change (Z.of_nat 4) with 4. lia.
+Qed.
+
+(* passwdSyncUpdate on a valid slot: what it returns and the state it leaves *)
+Lemma sync_update_valid s u (rec : list Z) : valid u ->
+  passwd_sync_update s u rec =
+  (mkst (shm s) (write_at (file s) (rec_pos u) (rec_with_money rec (shm s (u - 1)))), OVal (shm s (u - 1))).
+Proof.
+  intros H. unfold passwd_sync_update, passwd_update. rewrite (uid_is_valid_true u H). cbn [negb].
+  rewrite money_of_valid by exact H. reflexivity.
+Qed.
+
+(* ... the Money field of the record in the file is the cached balance, whatever the caller's record carried *)
+Lemma sync_update_field s u (rec : list Z) : valid u -> length (file s) = Z.to_nat (MAXU * RECSZ) -> length rec = Z.to_nat RECSZ ->
+  int32 (shm s (u - 1)) ->
+  money_field (file (fst (passwd_sync_update s u rec))) u = shm s (u - 1).
+Proof.
+  intros Hu Hl Hr Hm. rewrite sync_update_valid by exact Hu. cbn [fst file].
+  rewrite money_field_at, (money_pos_rec u Hu).
+  pose proof (rec_fits u (file s) Hu Hl) as Hfit. pose proof (money_off_fits rec Hr) as Hmo.
+  rewrite field_at_write_inside by (rewrite rec_with_money_length by exact Hr; first [exact Hfit | rewrite <- Hr; exact Hmo]).
+  unfold rec_with_money. apply field_at_write_same; assumption.
+Qed.
+
+Lemma agree_int32 s b u : Agree s b -> valid u -> int32 (b u).
+Proof.
+  intros [_ Ha] Hu. destruct (Ha u Hu) as [_ Hf]. rewrite <- Hf. unfold money_field, dec32. apply wrap32_int32.
+Qed.
+
+Lemma sync_update_agree s b u (rec : list Z) : Agree s b -> valid u -> length rec = Z.to_nat RECSZ ->
+  Agree (fst (passwd_sync_update s u rec)) b /\ snd (passwd_sync_update s u rec) = OVal (b u).
+Proof.
+  intros HA Hu Hr. pose proof (agree_int32 s b u HA Hu) as Hi. destruct HA as [Hl Ha].
+  destruct (Ha u Hu) as [Hsu Hfu].
+  assert (Hfld : money_field (file (fst (passwd_sync_update s u rec))) u = shm s (u - 1))
+    by (apply sync_update_field; try assumption; rewrite Hsu; exact Hi).
+  rewrite sync_update_valid in * by exact Hu. cbn [fst snd file shm] in *. rewrite Hsu in Hfld. split; [|rewrite Hsu; reflexivity].
+  pose proof (rec_fits u (file s) Hu Hl) as Hfit.
+  assert (Hlen : length (rec_with_money rec (b u)) = Z.to_nat RECSZ) by (apply rec_with_money_length; exact Hr).
+  rewrite Hsu. split; cbn [file shm].
+  - rewrite write_at_length by (rewrite Hlen; exact Hfit). exact Hl.
+  - intros u' Hu'. destruct (Z.eq_dec u' u) as [->|Hne].
+    + split; [exact Hsu|exact Hfld].
+    + destruct (Ha u' Hu') as [Hs Hf]. split; [exact Hs|].
+      rewrite money_field_at, field_at_write_outside; [rewrite <- money_field_at; exact Hf|rewrite Hlen; exact Hfit|].
+      rewrite Hlen. apply money_pos_outside_rec; assumption.
+Qed.
+
+(* the bytes of a one-field update miss every Money field *)
+Lemma part_outside u k u' : valid u -> valid u' ->
+  (money_pos u' + 4 <= rec_pos u + Z.to_nat (pf_off k) \/ rec_pos u + Z.to_nat (pf_off k) + Z.to_nat (pf_len k) <= money_pos u')%nat.
+Proof.
+  intros Hu Hu'. pose proof (layout_fields k) as [Ho [Hn [Hin Hdis]]]. pose proof layout_ok.
+  pose proof (rec_pos_Z u Hu) as Hp. pose proof (money_pos_Z u' Hu') as Hm.
+  assert (Hgoal : Z.of_nat (money_pos u') + 4 <= Z.of_nat (rec_pos u) + pf_off k \/
+                  Z.of_nat (rec_pos u) + pf_off k + pf_len k <= Z.of_nat (money_pos u')).
+  { destruct (Z.lt_total u u') as [Hlt|[Heq|Hgt]].
+    - right. nia.
+    - subst u'. rewrite Hp, Hm. lia.
+    - left. nia. }
+  destruct Hgoal as [Hg|Hg]; [left|right]; apply Nat2Z.inj_le; rewrite ?Nat2Z.inj_add, ?Z2Nat.id by lia; change (Z.of_nat 4) with 4; lia.
+Qed.
+
+Lemma part_fits u k (f : list Z) : valid u -> length f = Z.to_nat (MAXU * RECSZ) ->
+  (rec_pos u + Z.to_nat (pf_off k) + Z.to_nat (pf_len k) <= length f)%nat.
+Proof.
+  intros Hu Hl. pose proof (rec_fits u f Hu Hl). pose proof (layout_fields k) as [Ho [Hn [Hin _]]].
+  assert (Z.to_nat (pf_off k) + Z.to_nat (pf_len k) <= Z.to_nat RECSZ)%nat; [|lia].
+  apply Nat2Z.inj_le. rewrite Nat2Z.inj_add, !Z2Nat.id by lia. exact Hin.
+Qed.
+
+Lemma part_agree s b u k (bs : list Z) : Agree s b -> valid u -> length bs = Z.to_nat (pf_len k) ->
+  Agree (fst (passwd_update_field s u k bs)) b /\ snd (passwd_update_field s u k bs) = OVal 0.
+Proof.
+  intros HA Hu Hb. unfold passwd_update_field. rewrite (uid_is_valid_true u Hu). cbn [negb fst snd].
+  split; [|reflexivity]. apply write_outside_agree; [exact HA| |].
+  - rewrite Hb. apply part_fits; [exact Hu|exact (proj1 HA)].
+  - intros u' Hu'. rewrite Hb. apply part_outside; assumption.
+Qed.
+
 Lemma int32_0 : int32 0.
 Proof. unfold int32. lia. Qed.
 
@@ -187,7 +357,8 @@ Proof. unfold int32. lia. Qed.
 Lemma step_agree s b o : Agree s b -> op_ok b o ->
   Agree (fst (step s o)) (fst (spec_step b o)) /\ snd (step s o) = OVal (snd (spec_step b o)).
 Proof.
-  intros HA Hok. destruct o as [u m|u m|u]; cbn [step spec_step fst snd].
+  intros HA Hok. destruct o as [u m|u m|u|u rec|u k bs]; cbn [step spec_step fst snd];
+    [| | |destruct Hok as [Hu Hr]; apply sync_update_agree; assumption|destruct Hok as [Hu Hb]; apply part_agree; assumption].
   - destruct Hok as [Hu Hm]. apply set_umoney_agree; assumption.
   - destruct Hok as [Hu [Hm Hsum]]. unfold de_umoney. rewrite (valid_guard u Hu).
     rewrite money_of_valid by exact Hu. destruct HA as [Hl Ha]. destruct (Ha u Hu) as [Hs _]. rewrite Hs.
@@ -281,7 +452,7 @@ Proof.
   induction h as [|o r IH]; intros b Hb Hok Hs u Hu; [apply Hb; exact Hu|].
   rewrite spec_run_cons. cbn [fst]. destruct Hok as [Ho Hr].
   apply IH; [|exact Hr|intros u' m' Hin; apply (Hs u' m'); right; exact Hin|exact Hu].
-  intros u' Hu'. destruct o as [uo m|uo m|uo]; cbn [spec_step fst].
+  intros u' Hu'. destruct o as [uo m|uo m|uo|uo rec|uo k bs]; cbn [spec_step fst]; [| | |apply Hb; exact Hu'|apply Hb; exact Hu'].
   - unfold upd. destruct (Z.eqb_spec u' uo); [apply (Hs uo m); left; reflexivity|apply Hb; exact Hu'].
   - cbv zeta. cbn [fst]. unfold upd. destruct (Z.eqb_spec u' uo) as [->|]; [|apply Hb; exact Hu'].
     specialize (Hb uo Hu').
@@ -322,18 +493,134 @@ Proof.
     + intros j Hj. apply upd_other. exact Hj.
 Qed.
 
-Lemma frame s o : length (file s) = Z.to_nat (MAXU * RECSZ) ->
-  let s' := fst (step s o) in let u := target o in
+Lemma sync_update_frame s u (rec : list Z) : length (file s) = Z.to_nat (MAXU * RECSZ) -> length rec = Z.to_nat RECSZ ->
+  let s' := fst (passwd_sync_update s u rec) in
   length (file s') = length (file s) /\
-  (forall i, (i < money_pos u \/ money_pos u + 4 <= i)%nat -> nth i (file s') 0 = nth i (file s) 0) /\
+  (forall i, (i < rec_pos u \/ rec_pos u + Z.to_nat RECSZ <= i)%nat -> nth i (file s') 0 = nth i (file s) 0) /\
+  (forall j, shm s' j = shm s j).
+Proof.
+  intros Hl Hr. destruct (valid_dec u) as [Hu|Hu].
+  - rewrite sync_update_valid by exact Hu. cbn [fst file shm].
+    pose proof (rec_fits u (file s) Hu Hl) as Hfit.
+    assert (Hlen : length (rec_with_money rec (shm s (u - 1))) = Z.to_nat RECSZ) by (apply rec_with_money_length; exact Hr).
+    split; [apply write_at_length; rewrite Hlen; exact Hfit|]. split; [|reflexivity].
+    intros i Hi. apply nth_write_at_other; rewrite Hlen; assumption.
+  - unfold passwd_sync_update. rewrite (uid_is_valid_false u Hu). cbn. auto.
+Qed.
+
+Lemma part_frame s u k (bs : list Z) : length (file s) = Z.to_nat (MAXU * RECSZ) -> length bs = Z.to_nat (pf_len k) ->
+  let s' := fst (passwd_update_field s u k bs) in let p := (rec_pos u + Z.to_nat (pf_off k))%nat in
+  length (file s') = length (file s) /\
+  (forall i, (i < p \/ p + Z.to_nat (pf_len k) <= i)%nat -> nth i (file s') 0 = nth i (file s) 0) /\
+  (forall j, shm s' j = shm s j).
+Proof.
+  intros Hl Hb. destruct (valid_dec u) as [Hu|Hu].
+  - unfold passwd_update_field. rewrite (uid_is_valid_true u Hu). cbn [negb fst file shm].
+    pose proof (part_fits u k (file s) Hu Hl) as Hfit.
+    split; [apply write_at_length; rewrite Hb; exact Hfit|]. split; [|reflexivity].
+    intros i Hi. apply nth_write_at_other; rewrite Hb; assumption.
+  - unfold passwd_update_field. rewrite (uid_is_valid_false u Hu). cbn. auto.
+Qed.
+
+Lemma frame s o : length (file s) = Z.to_nat (MAXU * RECSZ) -> op_shape o ->
+  let s' := fst (step s o) in let u := target o in let p := fst (footprint o) in let n := snd (footprint o) in
+  length (file s') = length (file s) /\
+  (forall i, (i < p \/ p + n <= i)%nat -> nth i (file s') 0 = nth i (file s) 0) /\
   (forall j, j <> u - 1 -> shm s' j = shm s j).
 Proof.
-  intros Hl. destruct o as [u m|u m|u]; cbn [step target].
+  intros Hl Hsh. destruct o as [u m|u m|u|u rec|u k bs]; cbn [step target footprint fst snd].
   - apply set_umoney_frame. exact Hl.
   - unfold de_umoney. destruct ((u <=? 0) || (MAXU <? u)); [cbn; auto|].
     destruct (money_of s u) as [cur| |]; [|cbn; auto|cbn; auto].
     destruct ((m <? 0) && (cur <? - m)); apply set_umoney_frame; exact Hl.
   - cbn. auto.
+  - destruct (sync_update_frame s u rec Hl Hsh) as [H1 [H2 H3]]. repeat split; auto.
+  - destruct (part_frame s u k bs Hl Hsh) as [H1 [H2 H3]]. repeat split; auto.
+Qed.
+
+(* a whole-record write-back and a one-field update leave EVERY balance of the segment alone *)
+Lemma writers_keep_shm s o : length (file s) = Z.to_nat (MAXU * RECSZ) -> op_shape o ->
+  match o with OpRewrite _ _ | OpPart _ _ _ => forall j, shm (fst (step s o)) j = shm s j | _ => True end.
+Proof.
+  intros Hl Hsh. destruct o as [u m|u m|u|u rec|u k bs]; try exact I; cbn [step].
+  - apply (sync_update_frame s u rec Hl Hsh).
+  - apply (part_frame s u k bs Hl Hsh).
+Qed.
+
+(* the bytes an operation on a valid slot may write lie inside that slot's record *)
+Lemma footprint_in_record o : valid (target o) ->
+  RECSZ * (target o - 1) <= Z.of_nat (fst (footprint o)) /\
+  Z.of_nat (fst (footprint o)) + Z.of_nat (snd (footprint o)) <= RECSZ * target o.
+Proof.
+  intros Hu. pose proof layout_ok.
+  destruct o as [u m|u m|u|u rec|u k bs]; cbn [target footprint fst snd] in *;
+    try (change (Z.of_nat 4) with 4; apply money_pos_in_record; exact Hu).
+  - rewrite rec_pos_Z by exact Hu. rewrite Z2Nat.id by lia. lia.
+  - pose proof (layout_fields k) as [Ho [Hn [Hin _]]].
+    rewrite Nat2Z.inj_add, rec_pos_Z by exact Hu. rewrite !Z2Nat.id by lia. lia.
+Qed.
+
+(* an operation on an invalid slot changes nothing at all *)
+Lemma invalid_step_id s o : ~ valid (target o) -> match o with OpGet _ => True | _ => fst (step s o) = s end.
+Proof.
+  intros Hu. destruct o as [u m|u m|u|u rec|u k bs]; cbn [target step] in *; try exact I.
+  - unfold set_umoney. rewrite (invalid_guard u Hu). reflexivity.
+  - unfold de_umoney. rewrite (invalid_guard u Hu). reflexivity.
+  - unfold passwd_sync_update. rewrite (uid_is_valid_false u Hu). reflexivity.
+  - unfold passwd_update_field. rewrite (uid_is_valid_false u Hu). reflexivity.
+Qed.
+
+Lemma invalid_slot_writers s u (rec : list Z) k (bs : list Z) : ~ valid u ->
+  step s (OpRewrite u rec) = (s, OErr (rec_money rec) ERR_INVALID_UID) /\ step s (OpPart u k bs) = (s, OErr 0 ERR_INVALID_UID).
+Proof.
+  intros H. cbn [step]. unfold passwd_sync_update, passwd_update_field. rewrite (uid_is_valid_false u H). split; reflexivity.
+Qed.
+
+(* the overlay: after a whole-record write-back the Money field of the record is the cached balance — whatever
+   balance the caller's record carried and whatever the file held (no agreement is assumed) — the segment is
+   untouched, and every other byte of the record is the caller's *)
+Lemma rewrite_overlay s u (rec : list Z) : length (file s) = Z.to_nat (MAXU * RECSZ) -> valid u ->
+  length rec = Z.to_nat RECSZ -> int32 (shm s (u - 1)) ->
+  let s' := fst (step s (OpRewrite u rec)) in
+  snd (step s (OpRewrite u rec)) = OVal (shm s (u - 1)) /\
+  money_field (file s') u = shm s (u - 1) /\
+  (forall j, shm s' j = shm s j) /\
+  (forall k, (k < Z.to_nat RECSZ)%nat -> (k < Z.to_nat MONEY_OFF \/ Z.to_nat MONEY_OFF + 4 <= k)%nat ->
+     nth (rec_pos u + k) (file s') 0 = nth k rec 0).
+Proof.
+  intros Hl Hu Hr Hm. cbn [step]. split; [rewrite sync_update_valid by exact Hu; reflexivity|].
+  split; [apply sync_update_field; assumption|].
+  split; [apply (sync_update_frame s u rec Hl Hr)|].
+  intros k Hk Hout. rewrite sync_update_valid by exact Hu. cbn [fst file].
+  pose proof (rec_fits u (file s) Hu Hl) as Hfit.
+  assert (Hlen : length (rec_with_money rec (shm s (u - 1))) = Z.to_nat RECSZ) by (apply rec_with_money_length; exact Hr).
+  rewrite nth_write_at_inside by (rewrite Hlen; assumption).
+  unfold rec_with_money. apply nth_write_at_other; rewrite enc32_length; [apply money_off_fits; exact Hr|exact Hout].
+Qed.
+
+(* "no other user's record changes", for whole histories: a user no operation addresses keeps every byte of the
+   record and the balance in the segment *)
+Lemma run_frame : forall h s v, length (file s) = Z.to_nat (MAXU * RECSZ) -> Forall op_shape h -> valid v ->
+  (forall o, In o h -> target o <> v) ->
+  length (file (fst (run s h))) = length (file s) /\
+  (forall i, RECSZ * (v - 1) <= Z.of_nat i < RECSZ * v -> nth i (file (fst (run s h))) 0 = nth i (file s) 0) /\
+  shm (fst (run s h)) (v - 1) = shm s (v - 1).
+Proof.
+  induction h as [|o r IH]; intros s v Hl Hsh Hv Hne; [cbn; auto|].
+  rewrite run_cons. cbn [fst].
+  assert (Ho : target o <> v) by (apply Hne; left; reflexivity).
+  pose proof (Forall_inv Hsh) as Hso. pose proof (Forall_inv_tail Hsh) as Hsr.
+  destruct (frame s o Hl Hso) as [F1 [F2 F3]].
+  destruct (IH (fst (step s o)) v) as [I1 [I2 I3]]; [rewrite F1; exact Hl|exact Hsr|exact Hv|intros o' Hin; apply Hne; right; exact Hin|].
+  split; [rewrite I1; exact F1|]. split.
+  - intros i Hi. rewrite I2 by exact Hi.
+    destruct (valid_dec (target o)) as [Hu|Hu].
+    + apply F2. pose proof (footprint_in_record o Hu) as [Ha Hb]. pose proof layout_ok.
+      destruct (Z.lt_total (target o) v) as [Hlt|[Heq|Hgt]]; [|contradiction|].
+      * right. apply Nat2Z.inj_le. rewrite Nat2Z.inj_add. nia.
+      * left. apply Nat2Z.inj_lt. nia.
+    + pose proof (invalid_step_id s o Hu) as Hid. destruct o; try (rewrite Hid; reflexivity). reflexivity.
+  - rewrite I3. apply F3. lia.
 Qed.
 
 (* ------------------------------------------------------------------ non-vacuity *)
@@ -359,3 +646,43 @@ Qed.
 
 Example ex_invalid : step (cold_load ex_file) (OpSet 0 5) = (cold_load ex_file, OErr (-1) ERR_INVALID_UID).
 Proof. apply invalid_slot. unfold valid. lia. Qed.
+
+(* record writers between money operations: killUser's zeroed record after a credit, a stale record written back after
+   a debit (pwcuStart ... DeUMoney ... pwcuEnd), a password update *)
+Definition ex_zero_rec : list Z := repeat 0 (Z.to_nat RECSZ).
+Definition ex_stale_rec : list Z := rec_with_money ex_zero_rec 1000.
+Definition ex_hist2 : list op :=
+  [OpDe 2 640; OpRewrite 2 ex_zero_rec; OpSet MAXU 1000; OpDe MAXU (-300); OpRewrite MAXU ex_stale_rec;
+   OpPart MAXU FPasswd (repeat 65 (Z.to_nat PASSLEN)); OpGet MAXU; OpGet 2].
+
+Example ex_run2 : snd (run (cold_load ex_file) ex_hist2) = [OVal 640; OVal 640; OVal 1000; OVal 700; OVal 700; OVal 0; OVal 700; OVal 640].
+Proof. vm_compute. reflexivity. Qed.
+
+Example ex_rewrite_on_disk :
+  let s := fst (run (cold_load ex_file) ex_hist2) in
+  money_field (file s) 2 = 640 /\ money_field (file s) MAXU = 700 /\ rec_money ex_stale_rec = 1000.
+Proof. vm_compute. repeat split. Qed.
+
+Example ex_hist2_ok : hist_ok (fun u => money_field ex_file u) ex_hist2.
+Proof.
+  assert (H0 : forall u, money_field ex_file u = 0).
+  { intros u. rewrite money_field_at. unfold field_at, ex_file. rewrite !nth_repeat. reflexivity. }
+  assert (Hz : length ex_zero_rec = Z.to_nat RECSZ) by apply repeat_length.
+  assert (Hs : length ex_stale_rec = Z.to_nat RECSZ) by (apply rec_with_money_length; exact Hz).
+  unfold ex_hist2. cbn [hist_ok spec_step fst op_ok]. cbv zeta. unfold upd, valid, int32. rewrite !H0.
+  rewrite repeat_length. pose proof layout_ok. change MAXU with 50 in *.
+  repeat split; try assumption; try reflexivity; cbn; lia.
+Qed.
+
+Example ex_hist2_shape : Forall op_shape ex_hist2.
+Proof.
+  assert (Hz : length ex_zero_rec = Z.to_nat RECSZ) by apply repeat_length.
+  assert (Hs : length ex_stale_rec = Z.to_nat RECSZ) by (apply rec_with_money_length; exact Hz).
+  unfold ex_hist2. repeat constructor; try assumption; cbn [op_shape]; try apply repeat_length.
+Qed.
+
+Example ex_invalid_writer : step (cold_load ex_file) (OpRewrite (MAXU + 1) ex_zero_rec) = (cold_load ex_file, OErr 0 ERR_INVALID_UID).
+Proof.
+  assert (H : ~ valid (MAXU + 1)) by (unfold valid; lia).
+  destruct (invalid_slot_writers (cold_load ex_file) (MAXU + 1) ex_zero_rec FPasswd [] H) as [H1 _]. exact H1.
+Qed.
